@@ -462,6 +462,8 @@ def _partition(d, rng, universe, first_id, n_cells, surf_ids, mats, depth=1, fil
                 e = (':', ('s', surf_ids[0]), ('s', -surf_ids[0]))
         mat = rng.choice(mats)
         rho = rng.choice(RHOS)
+        if mat == 3:
+            rho = '-' + rho.lstrip('-')      # mass fractions with an atom density are not supported by the converter
         c = Cell(cid, mat, rho if mat else None, e, imp=1, universe=universe)
         if mat:
             d.materials[mat] = MATS[mat]
@@ -536,7 +538,7 @@ def lattice_deck(seed):
     d.add_surf(Surf(21, 's', cx + [0.15]))
     d.add_surf(Surf(30, 'so', [rng.choice([1.6, 2.2])]))
     for u, s_, (m1, m2) in ((2, 20, (1, 2)), (3, 21, (3, 4))):
-        d.add_cell(Cell(10 * u, m1, rng.choice(RHOS), ('s', -s_), universe=u))
+        d.add_cell(Cell(10 * u, m1, rng.choice(RHOS if m1 != 3 else ['-7.8', '-1.0']), ('s', -s_), universe=u))
         d.add_cell(Cell(10 * u + 1, m2, rng.choice(RHOS), ('s', s_), universe=u))
         d.materials[m1] = MATS[m1]
         d.materials[m2] = MATS[m2]
